@@ -3,6 +3,7 @@ package checks
 import (
 	"bytes"
 	"fmt"
+	"time"
 
 	kio "github.com/flanglet/kanzi-go/v2/io"
 
@@ -152,7 +153,20 @@ func c11(run *core.Run, replay string) {
 	}
 	core.ParallelDo(len(cases), 0, func(i int) {
 		c := cases[i]
-		k, d, ok := runRangeCase(c)
+		if core.Hangs() >= 3 {
+			return // leaked spinning tasks: stop early, the violations are already recorded
+		}
+		var k, d string
+		var ok bool
+		if !core.Guard(60*time.Second, func() { k, d, ok = runRangeCase(c) }) {
+			// confirm with a second, longer attempt before calling it a hang
+			if !core.Guard(180*time.Second, func() { k, d, ok = runRangeCase(c) }) {
+				core.NoteHang()
+				run.Eval(1)
+				run.Violate("C11 hang", fmt.Sprintf("range [%d,%d) jobs %d on %s: Read did not return within 60 s and then 180 s (a decode of a few KiB)", c.From, c.To, c.Jobs, c.R.Name), c)
+				return
+			}
+		}
 		if !ok {
 			run.Count("recipe_build_failed", 1)
 			return
